@@ -1,6 +1,7 @@
 // C13: runs the REAL cross-reference decoders on the case lines.
 //
 //   tab <hex> <pos> [description ...]            XrefSectP.parse on ParseBuffer(hex) at cursor pos
+//                                                (output: span, cursor, subsections, entries and each entry's start offset)
 //   xs  <enc> <dictspec> <hex> <pos> [...]       XrefStreamP::new(enc, stream).parse on ParseBuffer(hex) at pos
 //   xz  <mode> <dictspec> <rowshex> [...]        rows are compressed here (zlib, optional PNG-Up predictor),
 //                                                /Filter (+ /DecodeParms) are added to the dictionary
@@ -215,13 +216,16 @@ fn run_tab(w: &[&str]) -> String {
                 .iter()
                 .map(|s| format!("{}+{}", s.val().start(), s.val().count()))
                 .collect();
+            let ents = v.val().ents();
+            let pos: Vec<String> = ents.iter().map(|e| e.start().to_string()).collect();
             format!(
-                "ok {} {} {} subs={} ents={}",
+                "ok {} {} {} subs={} ents={} pos={}",
                 v.start(),
                 v.end(),
                 pb.get_cursor(),
                 if subs.is_empty() { "-".to_string() } else { subs.join(",") },
-                show_ents(&v.val().ents())
+                show_ents(&ents),
+                if pos.is_empty() { "-".to_string() } else { pos.join(",") }
             )
         },
         Err(e) => format!("err {} {}", errk(e.val()), pb.get_cursor()),
